@@ -418,7 +418,7 @@ Fixpoint cont_last_only (fl : bool) (cs : list comp) : Prop :=
   end.
 
 (* the former witnesses of the two repaired defects (now positive examples in LongNamesProofs.v) *)
-(* "a*129/.bbb/c*100", 136 bytes of room in the directory record: the name ".bbb" is cut after its dot *)
+(* "a*129/.bbb/c*100", 134 bytes of room in the directory record: the name ".bbb" is cut after its dot *)
 Definition w_dot : list Z := repeat 97 129%nat ++ [47; 46; 98; 98; 98; 47] ++ repeat 99 100%nat.
 Definition w_dotdot : list Z := repeat 97 128%nat ++ [47; 46; 46; 98; 98; 98; 47] ++ repeat 99 100%nat.
 (* "a/a/.../a" (40 names), 164 bytes of room, no CE record *)
